@@ -118,8 +118,12 @@ def _json_roundtrip(ctx: Ctx, rnd: random.Random, count: int):
 
     n = 0
     segs = []
-    for _ in range(count):
-        h = {rnd.choice(["alg", "kid", "typ", "crit", "epk", "x-" + str(rnd.randrange(99)), "ü"]): val(0) for _ in range(rnd.randrange(6))}
+    specials = [{"alg": "HS256", "x-list": [[i, str(i)] for i in range(70)]},                      # many shallow sibling containers
+                {"alg": "HS256", "kid": "{[" * 60 + "]}" * 60, "x": {"a" * 3: [{}] * 40}},        # bracket characters inside a string
+                {"alg": "none", "deep": [[[[[[[[[[[[[[[[[[[[1]]]]]]]]]]]]]]]]]]]]},                 # twenty levels (well within any sane bound)
+                {"k" + str(i): {"v": [i]} for i in range(120)}]
+    for it in range(count + len(specials)):
+        h = specials[it - count] if it >= count else {rnd.choice(["alg", "kid", "typ", "crit", "epk", "x-" + str(rnd.randrange(99)), "ü"]): val(0) for _ in range(rnd.randrange(6))}
         try:
             seg = util.json_b64encode(h)
             back = util.json_b64decode(seg)
